@@ -99,14 +99,28 @@ def coords_obs(o):
 
 
 def grid_obs(g):
+    """What a user can see of a grid through its public API - deliberately NOT through reduce() (the thing the database
+    stores), so that a stale or wrong reduce() shows up as a difference between the live grid and the loaded one."""
     if g is None:
         return None
-    red = g.reduce()
-    return (type(g).__name__, _norm(list(red.unitSteps)) if not isinstance(red.unitSteps, (int, float)) else red.unitSteps,
-            tuple(None if b is None else tuple(float(x) for x in b) for b in red.bounds), _norm(list(red.unitStepLimits)),
-            None if red.offset is None else tuple(float(x) for x in red.offset),
-            str(g.geomType) if red.geomType else "",  # the public property canonicalises e.g. hex_corners_up -> hex; orientation is in the unit steps
-            red.symmetry)
+    bounds = tuple(None if b is None else tuple(float(x) for x in b) for b in g.getBounds())
+    probes = []
+    for idx in ((0, 0, 0), (1, 0, 0), (0, 1, 0), (0, 0, 1), (2, 1, 0)):
+        ok = all(b is None or 0 <= i_ < len(b) - 1 for i_, b in zip(idx, bounds))
+        if not ok:
+            probes.append(None)
+            continue
+        try:
+            probes.append(tuple(round(float(x), 12) for x in g.getCoordinates(idx)))
+        except Exception as e:
+            probes.append(("raises", type(e).__name__))
+    try:
+        sym = str(g.symmetry) if g._symmetry else ""
+    except Exception:
+        sym = g._symmetry
+    return (type(g).__name__, tuple(probes), bounds, _norm([list(x) for x in g.getIndexBounds()]),
+            str(g.geomType) if g._geomType else "",  # the public property canonicalises e.g. hex_corners_up -> hex; orientation is in the probes
+            sym, bool(g.isAxialOnly))
 
 
 def params_obs(o, only_saved=True):
